@@ -784,7 +784,8 @@ func sameSegs(a, b []seg) bool {
 
 // ---------------------------------------------------------------- realistic route of the silent-EOF finding
 
-// TestScenarios: the two reader findings on routes through the public message API.
+// TestScenarios: the two reader findings (X03-R1, since repaired: regression guard; X03-C1) on routes through the public
+// message API.
 // (1) a Compressed packet (deflate) whose content is a partial-length literal packet that stops at a chunk boundary:
 // compress/flate delivers its last octets together with io.EOF.
 // (2) one-pass signature, compressed literal, signature (RFC 4880 11.3), the compressed packet written by
